@@ -121,6 +121,8 @@ pub fn get_key_value_safe(key: &String, sender: &Sender<String>, db: &Database) 
  * All get keys functions must call this function and parse the result from it
  */
 pub fn get_key_value_new(key: &String, db: &Database) -> Response {
+    #[cfg(feature = "verif")]
+    crate::verif::point("db.map:get_key_value");
     let db = db.map.read().unwrap();
     let (value, version) = match db.get(&key.to_string()) {
         Some(value) => (value.to_string(), value.version),
@@ -207,6 +209,8 @@ pub fn unwatch_key(key: &String, sender: &Sender<String>, db: &Database) -> Resp
     log::debug!("Senders before unwatch {:?}", senders.len());
     senders.retain(|x| !x.same_receiver(&sender));
     log::debug!("Senders after unwatch {:?}", senders.len());
+    #[cfg(feature = "verif")]
+    crate::verif::point("watchers.map:unwatch_key");
     let mut watchers = db.watchers.map.write().expect("db.watchers.map.lock");
     watchers.insert(key.clone(), senders);
     Response::Ok {}
@@ -218,6 +222,8 @@ pub fn watch_key(key: &String, sender: &Sender<String>, db: &Database) -> Respon
 
 pub fn unwatch_all(sender: &Sender<String>, db: &Database) -> Response {
     log::debug!("Will unwatch_all");
+    #[cfg(feature = "verif")]
+    crate::verif::point("watchers.map:unwatch_all");
     let watchers = db
         .watchers
         .map
@@ -273,6 +279,8 @@ pub fn create_init_dbs(
 }
 
 pub fn get_senders(key: &String, watchers: &Watchers) -> Vec<Sender<String>> {
+    #[cfg(feature = "verif")]
+    crate::verif::point("watchers.map:get_senders");
     let watchers = watchers
         .map
         .read()
